@@ -196,3 +196,16 @@ META["C10"] = dict(
          "directory so later history is byte-compared. The resume clause is examined by the crash engine; known finding D14.",
     note=SEQ_NOTE + " The byte-level upgrade (chunk file contents, in-place offset rewrite) is not modelled; only its pure core and its result.",
 )
+
+META["C16"] = dict(
+    engine="lean+extractor+harness(stress,-race)",
+    design_ref="DESIGN.md section 5, C16",
+    technique="Lean 4 proof of lockset soundness over an abstract lock-trace semantics + kernel-checked obligation over the access table regenerated from the source + -race stress as search/cross-check",
+    text="C16_lockset_sound: in a well-formed lock trace two conflicting accesses guarded by a common lock (write side exclusive) are "
+         "ordered by happens-before. The hypothesis is discharged for THIS code by an obligation over the access table that a go/ast "
+         "extractor regenerates from /repo on every run (fields, read/write, locks held, closed over the call graph from the property's "
+         "entry points): every write and every concurrent access of the same field share a lock. A source edit that drops a lock breaks the "
+         "obligation; the check then searches for a concrete report with a -race stress run.",
+    note="Trusts: Lean kernel; the extractor (syntactic, precision limits listed in DESIGN.md section 9); the abstract trace semantics (program "
+         "order, lock synchronisation, fork/join) as an abstraction of the Go memory model; the race detector as the search oracle.",
+)
